@@ -124,3 +124,6 @@ def run(rep):
     # the literal must survive printing: both printers get the same tokens and the text they return is handed back unmodified
     include(rep, 'c19', ('C19.a', 'C19.e'), 'printed-text-unmodified')
     rep.analysed = {'function': q, 'template': st[1], 'wrappers': callers}
+    # the section reaches the assembled output unconditionally (shared rule, lib/sections.py)
+    from sections import check_wiring
+    check_wiring(rep, 'C16.section-wiring', ['include_str !', 'SOURCE'], 'source-section')
